@@ -153,12 +153,12 @@ theorem ns_hofPairs (c : ICtx) (a : Nat) : ∀ (ps : List (Item × Item)) (D : E
   | (x, y) :: ps, D, acc => by
     simp only [hofPairs]; exact NS.bnd (ns_callFn cfg hs ev hev _ _ _ _) (fun r => ns_hofPairs c a ps _ _)
 
-theorem ns_hofKeys (c : ICtx) (a : Nat) : ∀ (xs : Seq) (D : Env) (acc : List (Item × List Int)),
-    NS (hofKeys cfg ev c a D acc xs)
+theorem ns_hofKeys (ci : Bool) (c : ICtx) (a : Nat) : ∀ (xs : Seq) (D : Env) (acc : List (Item × List Int)),
+    NS (hofKeys cfg ev ci c a D acc xs)
   | [], D, acc => NS.ret _
   | x :: xs, D, acc => by
     simp only [hofKeys]
-    exact NS.bnd (ns_callFn cfg hs ev hev _ _ _ _) (fun r => NS.bnd (NS.lift _) (fun k => ns_hofKeys c a xs _ _))
+    exact NS.bnd (ns_callFn cfg hs ev hev _ _ _ _) (fun r => NS.bnd (NS.lift _) (fun k => ns_hofKeys ci c a xs _ _))
 
 omit hs in
 theorem ns_evArith (op : AOp) (a b : Expr) (c : ICtx) (D : Env) : NS (evArith ev op a b c D) := by
@@ -179,6 +179,10 @@ theorem ns_step (e : Expr) (c : ICtx) (D : Env) : NS (step cfg ev e c D) := by
   | lit n => exact NS.ret _
   | dlit n => exact NS.ret _
   | elit n => exact NS.ret _
+  | slit cs => exact NS.ret _
+  | nanlit => exact NS.ret _
+  | inflit p => exact NS.ret _
+  | negzlit => exact NS.ret _
   | inst t e =>
     simp only [step]
     exact NS.bnd (hev _ _ _) (fun _ => NS.ret _)
@@ -272,13 +276,13 @@ theorem ns_step (e : Expr) (c : ICtx) (D : Env) : NS (step cfg ev e c D) := by
     split
     · exact NS.ret _
     · exact NS.bnd (hev _ _ _) (fun _ => ns_hofPairs cfg hs ev hev _ _ _ _ _)
-  | sortK s f =>
+  | sortK ci s f =>
     simp only [step]
     apply NS.bnd (ns_funArgCheck ev hev _ _ _ _); intro fa
     apply NS.bnd (hev _ _ _); intro xs
     split
     · exact NS.ret _
-    · apply NS.bnd (ns_hofKeys cfg hs ev hev _ _ _ _ _); intro ks
+    · apply NS.bnd (ns_hofKeys cfg hs ev hev _ _ _ _ _ _); intro ks
       split
       · exact NS.ret _
       · exact NS.thr _
